@@ -226,71 +226,56 @@ def native(binpath, *args, timeout=60):
     return out
 
 
+C09_NATIVES = {("Mutex", "wait"): "mutex_wait(verif_hm(self), status)", ("Mutex", "notify"): "mutex_notify(verif_hm(self))",
+               ("Condition", "enqueue"): "condition_enqueue(verif_hc(self))",
+               ("Condition", "block"): "condition_block_after_enqueue(verif_hc(self))",
+               ("Condition", "wakeup_one"): "condition_wakeup_one(verif_hc(self))",
+               ("Condition", "wakeup_all"): "condition_wakeup_all(verif_hc(self))"}
+C09_FALLBACK = """use crate::c09::*;
+impl Mutex { pub fn lock_op(&mut self) { unimplemented!() } pub fn unlock_op(&mut self) { unimplemented!() } }
+impl Condition { pub fn wait(&mut self, m: &mut Mutex) { unimplemented!() } pub fn notify_one(&mut self) { unimplemented!() }
+    pub fn notify_all(&mut self) { unimplemented!() } }
+"""
+
+
 def drivers_mir_dump():
-    """MIR of /verif/engines/drivers (the environment programs of the bmc checks)"""
+    """MIR of /verif/engines/drivers (the environment programs of the bmc checks) + the Rust translation of
+    Dora's Mutex/Condition from pkgs/std/thread.dora of the working tree (module c09_gen)"""
+    import shutil
     src = os.path.join(VERIF, "engines", "drivers")
+    dst = os.path.join(WORK, "drivers-src")
     out = os.path.join(WORK, "mir", "verif-drivers.mir")
     os.makedirs(os.path.dirname(out), exist_ok=True)
     with Lock("mir-drivers"):
-        lib = os.path.join(src, "src", "lib.rs")
-        os.utime(lib, None)
-        p = run(["cargo", "+nightly", "rustc", "--offline", "-q", "--lib", "--", "-Zunpretty=mir", "-C", "debug-assertions=on",
-                 "-C", "overflow-checks=on"], cwd=src, env={"CARGO_TARGET_DIR": os.path.join(WORK, "drivers-target")}, timeout=1800)
-        if len(p.stdout) < 500:
-            raise Inconclusive("empty MIR dump for the drivers crate: " + p.stderr[-2000:])
+        os.makedirs(os.path.join(dst, "src"), exist_ok=True)
+        _write_if_changed(os.path.join(dst, "Cargo.toml"), open(os.path.join(src, "Cargo.toml")).read())
+        for f in os.listdir(os.path.join(src, "src")):
+            _write_if_changed(os.path.join(dst, "src", f), open(os.path.join(src, "src", f)).read())
+        gen_err = None
+        try:
+            from . import dora2rs
+            gen = dora2rs.translate(open(os.path.join(REPO, "pkgs/std/thread.dora")).read(), ["Mutex", "Condition"], C09_NATIVES)
+        except Inconclusive as e:
+            gen, gen_err = C09_FALLBACK, str(e)
+        _write_if_changed(os.path.join(dst, "src", "c09_gen.rs"), gen)
+        lib = os.path.join(dst, "src", "lib.rs")
+
+        def dump():
+            os.utime(lib, None)
+            return run(["cargo", "+nightly", "rustc", "--offline", "-q", "--lib", "--", "-Zunpretty=mir", "-C", "debug-assertions=on",
+                        "-C", "overflow-checks=on"], cwd=dst, env={"CARGO_TARGET_DIR": os.path.join(WORK, "drivers-target")},
+                       timeout=1800, check=False)
+        p = dump()
+        if p.returncode != 0 and gen is not C09_FALLBACK:
+            # the translated Dora code does not compile (construct outside the supported subset): fall back so
+            # that the other drivers still work; C09 sees the marker file and reports inconclusive
+            gen_err = "translated thread.dora does not compile: " + p.stderr[-600:]
+            _write_if_changed(os.path.join(dst, "src", "c09_gen.rs"), C09_FALLBACK)
+            p = dump()
+        if p.returncode != 0 or len(p.stdout) < 500:
+            raise Inconclusive("MIR dump of the drivers crate failed: " + p.stderr[-2000:])
         with open(out, "w") as f:
             f.write(p.stdout)
+        with open(os.path.join(WORK, "mir", "c09_gen.status"), "w") as f:
+            f.write(gen_err or "ok")
     return out
-
-
-def fork_map(fn, items, jobs):
-    """map over items in fork()ed children (nestable, unlike multiprocessing.Pool; children inherit
-    z3 objects by memory copy and each has the z3 context for itself).  Results must be picklable.
-    An exception in a child is re-raised here as Inconclusive."""
-    import pickle
-    items = list(items)
-    results = [None] * len(items)
-    running = {}
-    nxt = 0
-
-    def reap(pid, idx, rfd):
-        with os.fdopen(rfd, "rb") as f:
-            data = f.read()
-        os.waitpid(pid, 0)
-        if not data:
-            raise Inconclusive("worker for item %d died without a result" % idx)
-        ok, val = pickle.loads(data)
-        if not ok:
-            raise Inconclusive(val)
-        results[idx] = val
-
-    import select
-    while nxt < len(items) or running:
-        while nxt < len(items) and len(running) < max(1, jobs):
-            rfd, wfd = os.pipe()
-            sys.stdout.flush()
-            sys.stderr.flush()
-            pid = os.fork()
-            if pid == 0:
-                os.close(rfd)
-                try:
-                    try:
-                        out = (True, fn(items[nxt]))
-                    except Inconclusive as e:
-                        out = (False, str(e))
-                    except BaseException as e:
-                        import traceback
-                        out = (False, "worker error: %s\n%s" % (e, traceback.format_exc()[-1500:]))
-                    with os.fdopen(wfd, "wb") as f:
-                        f.write(pickle.dumps(out))
-                finally:
-                    os._exit(0)
-            os.close(wfd)
-            running[rfd] = (pid, nxt)
-            nxt += 1
-        ready, _, _ = select.select(list(running), [], [], 1.0)
-        for rfd in ready:
-            # a readable pipe may deliver data in pieces; read to EOF in reap()
-            pid, idx = running.pop(rfd)
-            reap(pid, idx, rfd)
-    return results
